@@ -63,27 +63,53 @@ Definition extract_cd_target (t : tree) : option str :=
   | _ => None
   end.
 
+(* _changes_directory(node): a cd/pushd/popd that runs in the current shell, anywhere inside *)
+Fixpoint changes_directory (t : tree) : bool :=
+  match t with
+  | T k _ _ ks =>
+      if str_eqb k $"command" then
+        match skip_assignments (map word_value (map snd (filter (fun p => str_eqb (fst p) $"words") ks))) with
+        | b :: _ => mem_str b CHDIR_COMMANDS
+        | [] => false
+        end
+      else if mem_str k CHDIR_OPAQUE_KINDS then false
+      else if str_eqb k $"pipeline" && Nat.ltb 1 (length (filter (fun p => str_eqb (fst p) $"commands") ks)) then false
+      else existsb (fun p => changes_directory (snd p)) ks
+  end.
+
 (* _strip_fd_prefix(op) *)
 Definition strip_fd_prefix (op : str) : str :=
   match op with
-  | 123 :: _ =>
-      match find_ch 125 op with
-      | Some i => skipn (S i) op
-      | None => lstrip ascii_digits op
-      end
-  | _ => lstrip ascii_digits op
+  | c :: _ =>
+      if N.eqb c 123 then
+        match find_ch 125 op with
+        | Some i => skipn (S i) op
+        | None => lstrip ascii_digits op
+        end
+      else lstrip ascii_digits op
+  | [] => []
   end.
 
-Inductive redir_class := RSkip | RCheck.
+(* "N>&word" is reported as operator "N>" with the target word "&word": [dup_word] says whether
+   word makes it a duplication / closing / move ("3", "-", "3-") rather than a file *)
+Definition dup_word (w : str) : bool :=
+  str_eqb w [45] || is_ascii_digits (if suffixb [45] w then removelast w else w).
+
+(* (is this an fd duplication by its "&word" target?, the file the redirection would name) *)
+Definition redirect_file (raw tgt : str) : bool * str :=
+  if prefixb [38] raw then (dup_word (tl raw), strip_quotes (tl raw)) else (false, tgt).
+
 (* the part of _analyze_redirects after the target's substitutions, for remote = false:
-   does this redirect need a rule?  raw = target.value, tgt = _get_word_value(target) *)
-Definition redirect_class (op raw tgt : str) : redir_class :=
+   Some t = this redirect needs a redirect rule for the file t.
+   raw = target.value, tgt = _get_word_value(target) *)
+Definition redirect_check (op raw tgt : str) : option str :=
   let bare := strip_fd_prefix op in
-  if prefixb [38] raw then RSkip
-  else if mem_str bare REDIRECT_DUP_OPS && (is_ascii_digits tgt || str_eqb tgt [45]) then RSkip
-  else if mem_str tgt SAFE_REDIRECT_TARGETS && negb (str_eqb tgt [45]) then RSkip
-  else if mem_str bare REDIRECT_WRITE_OPS then RCheck
-  else RSkip.
+  let '(dup, t) := redirect_file raw tgt in
+  if dup then None
+  else if mem_str bare REDIRECT_DUP_OPS && (is_ascii_digits t || str_eqb t [45]) then None
+  else if mem_str t SAFE_REDIRECT_TARGETS then None
+  else if mem_str bare REDIRECT_WRITE_OPS then Some t
+  else None.
 
 Section Walker.
   (* _analyze_simple_command(words, config, cwd, remote).action *)
@@ -113,17 +139,27 @@ Section Walker.
     | None => Ask
     end.
 
+  Definition unknown_ctx (c : ctx) : ctx := (UNKNOWN_CWD, snd c).
+
+  (* the directory the next element of a sequence is analysed in *)
+  Definition next_ctx (c : ctx) (t : tree) : ctx :=
+    if snd c then c else
+      match extract_cd_target t with
+      | Some tgt => if nonempty tgt then (cdres (fst c) tgt, snd c)
+                    else if changes_directory t then unknown_ctx c else c
+      | None => if changes_directory t then unknown_ctx c else c
+      end.
+
+  (* the directory a loop body / the branches of an if run in *)
+  Definition body_ctx (c : ctx) (moves : bool) : ctx := if negb (snd c) && moves then unknown_ctx c else c.
+
   (* _analyze_sequence over already evaluated nodes *)
   Fixpoint sequence (c : ctx) (l : list (tree * res)) : list verdict :=
     match l with
     | [] => []
     | (t, r) :: rest =>
         r_node r c ::
-        sequence (if snd c then c else
-                    match extract_cd_target t with
-                    | Some tgt => if nonempty tgt then (cdres (fst c) tgt, snd c) else c
-                    | None => c
-                    end) rest
+        sequence (next_ctx c t) rest
     end.
 
   Definition lbl (k : string) (kr : list (str * tree * res)) : list (tree * res) :=
@@ -136,6 +172,9 @@ Section Walker.
     match o with Some (_, r) => r_node r c | None => Ask end.
   Definition opt_node (o : option (tree * res)) (c : ctx) : list verdict :=
     match o with Some (_, r) => [r_node r c] | None => [] end.
+
+  Definition moves_of (o : option (tree * res)) : bool :=
+    match o with Some (t, _) => changes_directory t | None => false end.
 
   Definition redirs (kr : list (str * tree * res)) (c : ctx) : list verdict :=
     flat_map (fun p => r_redir (snd p) c) (lbl "redirects" kr).
@@ -150,10 +189,12 @@ Section Walker.
   Definition build (k : str) (ss : list (str * str)) (fs : list (str * bool))
              (kr : list (str * tree * res)) : res :=
     let K (n : string) := str_eqb k (s2l n) in
+    let self := T k ss fs (map (fun p => (fst (fst p), snd (fst p))) kr) in
     let sattr (n : string) := match assoc_str (s2l n) ss with Some s => s | None => [] end in
     (* --- _analyze_word_parts --- *)
     let wp : bool -> ctx -> list verdict := fun scan c =>
       let parts := lbl "parts" kr in
+      (if nonempty parts && unclosed_arith (sattr "value") then [Ask] else []) ++
       flat_map (fun p => r_exp (snd p) c) parts ++
       (if scan && negb (nonempty parts) then rawscan c (sattr "value") else []) in
     (* --- _analyze_expansion --- *)
@@ -187,9 +228,9 @@ Section Walker.
         let val := match tgt with Some (t, _) => word_value t | None => [] end in
         subs ++
         (if snd c then []
-         else match redirect_class (sattr "op") raw val with
-              | RSkip => []
-              | RCheck => [redirect_rule (fst c) val]
+         else match redirect_check (sattr "op") raw val with
+              | None => []
+              | Some file => [redirect_rule (fst c) file]
               end) in
     (* --- one element of case.patterns --- *)
     let pat : ctx -> list verdict := fun c =>
@@ -217,14 +258,16 @@ Section Walker.
       else if K "list" then
         combine (sequence c (filter (fun p => negb (is_kind "operator" (fst p))) (lbl "parts" kr)))
       else if K "if" then
-        combine (need_node (one "condition" kr) c :: need_node (one "then_body" kr) c ::
-                 opt_node (one "else_body" kr) c ++ redirs kr c)
+        let cb := body_ctx c (moves_of (one "condition" kr)) in
+        combine (need_node (one "condition" kr) c :: need_node (one "then_body" kr) cb ::
+                 opt_node (one "else_body" kr) cb ++ redirs kr c)
       else if K "while" || K "until" then
-        combine (need_node (one "condition" kr) c :: need_node (one "body" kr) c :: redirs kr c)
+        let cb := body_ctx c (changes_directory self) in
+        combine (need_node (one "condition" kr) cb :: need_node (one "body" kr) cb :: redirs kr c)
       else if K "for" || K "select" then
-        combine (need_node (one "body" kr) c :: wparts_of "words" kr c ++ redirs kr c)
+        combine (need_node (one "body" kr) (body_ctx c (moves_of (one "body" kr))) :: wparts_of "words" kr c ++ redirs kr c)
       else if K "for-arith" then
-        combine (need_node (one "body" kr) c ::
+        combine (need_node (one "body" kr) (body_ctx c (moves_of (one "body" kr))) ::
                  rawscan c (sattr "init") ++ rawscan c (sattr "cond") ++ rawscan c (sattr "incr") ++ redirs kr c)
       else if K "case" then
         combine (wparts_of "word" kr c ++ flat_map (fun p => r_pat (snd p) c) (lbl "patterns" kr) ++ redirs kr c)
@@ -235,7 +278,8 @@ Section Walker.
       else if K "cond-expr" then
         combine (flat_map (fun p => r_cond (snd p) c) (lbl "body" kr) ++ redirs kr c)
       else if K "arith-cmd" then
-        combine (flat_map (fun p => r_exp (snd p) c) (lbl "expression" kr) ++ redirs kr c)
+        combine (flat_map (fun p => r_exp (snd p) c) (lbl "expression" kr) ++
+                 (if unclosed_arith (sattr "raw_content") then [Ask] else []) ++ redirs kr c)
       else if K "comment" || K "empty" then Allow
       else Ask in
     {| r_node := node; r_exp := exp; r_wp := wp; r_cond := cond; r_redir := redir; r_pat := pat |}.
